@@ -28,6 +28,9 @@ Section XInd.
   Hypothesis Hpipe : forall a f, P a -> P f -> P (XPipe a f).
   Hypothesis Hassign : forall x e, P e -> P (XAssign x e).
   Hypothesis Hseq : forall a b, P a -> P b -> P (XSeq a b).
+  Hypothesis Hselfs : forall sh, P (XSelfS sh).
+  Hypothesis Hcon : forall tn tag arg, (forall a, arg = Some a -> P a) -> P (XCon tn tag arg).
+  Hypothesis Hmatch : forall sc arms, P sc -> Forall (fun a => P (snd a)) arms -> P (XMatch sc arms).
 
   Fixpoint xexpr_ind' (e : xexpr) : P e :=
     let all := fix all (l : list xexpr) : Forall P l :=
@@ -56,6 +59,20 @@ Section XInd.
     | XPipe a f => Hpipe a f (xexpr_ind' a) (xexpr_ind' f)
     | XAssign x e' => Hassign x e' (xexpr_ind' e')
     | XSeq a b => Hseq a b (xexpr_ind' a) (xexpr_ind' b)
+    | XSelfS sh => Hselfs sh
+    | XCon tn tag arg =>
+        Hcon tn tag arg (match arg as o return forall a, o = Some a -> P a with
+                         | Some a0 => fun a E => match E in _ = y return match y with Some z => P z | None => True end with
+                                                 | eq_refl => xexpr_ind' a0
+                                                 end
+                         | None => fun a E => match E in _ = y return match y with Some z => P a | None => True end with
+                                              | eq_refl => I
+                                              end
+                         end)
+    | XMatch sc arms =>
+        Hmatch sc arms (xexpr_ind' sc)
+          ((fix alla (l : list (mpat * xexpr)) : Forall (fun a => P (snd a)) l :=
+              match l with [] => Forall_nil _ | x :: l' => Forall_cons _ (xexpr_ind' (snd x)) (alla l') end) arms)
     end.
 End XInd.
 
